@@ -225,7 +225,7 @@ def run():
     home_stats = {}
     if c.replay_path:
         ev0 = json.load(open(c.replay_path))["event"]
-        home_progs = [{"fn": "home", "envset": ev0["envset"], "acts": [st["act"] for st in ev0["steps"]]}] if ev0.get("fn") == "home" else []
+        home_progs = [{"fn": "home", "envset": ev0["envset"], "acts": [st["act"] for st in ev0["steps"]], "envform": ev0.get("envform", "abs")}] if ev0.get("fn") == "home" else []
         if home_progs:
             c.events = []
     else:
@@ -235,7 +235,8 @@ def run():
         progs, home_stats = graphcover.cover(edges, lambda st: not st["exists"] and not st["cached"], rng, extra_walks=400 if c.thorough else 60)
         if home_stats["reachable_states"] != rh.distinct or home_stats["edges"] < 8 * home_stats["states"]:
             raise MachineryError("DataHome graph incomplete: %s vs %d states" % (home_stats, rh.distinct))
-        home_progs = [{"fn": "home", "envset": root["envset"], "acts": acts} for root, acts in progs]
+        home_progs = [{"fn": "home", "envset": root["envset"], "acts": acts, "envform": ("abs", "tilde", "rel")[i % 3]}
+                      for i, (root, acts) in enumerate(progs)]
     if home_progs:
         import fnexec
         hev = c.run_cases(home_progs, fnexec.execute)
